@@ -112,7 +112,13 @@ def run_case(c):
     if all(trained):
         sm = c02._scores_model(dict(c), obs)
         if any(s[0] == "err" for s in sm):
-            return ("err", [s[1] for s in sm if s[0] == "err"][0]), ("ok", impl)
+            kind = [s[1] for s in sm if s[0] == "err"][0]
+            if kind == "TypeError":
+                # the calibration of some fold is not finite in the model (no decoy in the fold, or lowest accepted target =
+                # decoy median): the code then carries nan / inf scores into the comparison with the best feature — outside
+                # the model (and outside C11's quantifier); such runs are not compared
+                return ("err", "NonFiniteCalibration"), ("err", "NonFiniteCalibration")
+            return ("err", kind), ("ok", impl)
         mscores = [s[1] for s in sm]
     else:
         mscores = [[Fraction(0)] * len(fl["targets"]) for fl in c["files"]]
